@@ -13,33 +13,76 @@ import OdfModel.Props.C16
 namespace OdfModel.Props.C16Names
 open OdfModel OdfModel.Pkg OdfModel.Props.C16
 
-/-- the names in use below a parent stored in `fo`: `c.folder[len(self.folder)+1:]` -/
-def usedNames (fo : Str) (kids : List Doc) : List Str := kids.map (fun c => c.folder.drop (fo.length + 1))
+/-- the names in use below a holder stored in `fo`: `f[len(self.folder)+1:]` for the folder `f` of EVERY object below the
+    holder, at any depth (`_foldersBelow`; before the repair of KF-C16-3: of the direct objects only) -/
+def usedNames (fo : Str) (kids : List Doc) : List Str := (objectsK 0 kids).map (fun q => q.2.folder.drop (fo.length + 1))
+
+/-- the names of the direct objects (what `usedNames` was before the repair of KF-C16-3) are among them -/
+theorem direct_names_used (fo : Str) (kids : List Doc) :
+    ∀ x ∈ kids.map (fun c => c.folder.drop (fo.length + 1)), x ∈ usedNames fo kids := by
+  intro x hx
+  obtain ⟨c, hc, rfl⟩ := List.mem_map.mp hx
+  obtain ⟨a, b, rfl⟩ := List.append_of_mem hc
+  refine List.mem_map.mpr ⟨(stor 0 c, c), ?_, rfl⟩
+  simp only [objectsK_append, objectsK, List.mem_append]
+  right; left; rw [objects_head]; exact List.mem_cons_self
 
 /-- **C16/C03 (`objectName_free`)**: whatever name `addObject` settles on (default or explicit, leading "/" or
-    not), it is not the name of an object the parent already holds — for every parent, every list of objects in
-    every order, every requested name. (The other outcome is ValueError: nothing is attached.) -/
+    not, a path or not), it is not the folder — read below the holder — of any object below the holder, at any depth:
+    for every holder, every tree of objects in every order, every requested name. (The other outcome is ValueError:
+    nothing is attached.)  Stronger than before the repair of KF-C16-3, when it spoke of the direct objects only
+    (`objectName_free_direct`). -/
 theorem objectName_free (fo : Str) (kids : List Doc) (name : Option Str) (n : Str)
     (h : objectName fo kids name = some n) : n ∉ usedNames fo kids := by
   unfold objectName at h
   simp at h
   obtain ⟨h1, h2⟩ := h
   subst h2
-  simpa [usedNames] using h1
+  simpa [usedNames, usedBelow] using h1
 
-/-- the folder a new object gets is not the folder of an object the parent already holds -/
+/-- the statement as it was before the repair: the name is not the name of an object the parent already holds -/
+theorem objectName_free_direct (fo : Str) (kids : List Doc) (name : Option Str) (n : Str)
+    (h : objectName fo kids name = some n) : n ∉ kids.map (fun c => c.folder.drop (fo.length + 1)) :=
+  fun hn => objectName_free fo kids name n h (direct_names_used fo kids n hn)
+
+/-- **C16 (`attach_folder_fresh`)**: the folder a new object gets is not the folder of ANY object of the holder's tree —
+    direct or nested at any depth (`q ∈ objectsK 0 kids`) — whose folder lies below the holder's (`hf`; true of every
+    object of a tree built by `addObject`/`load`).  Before the repair of KF-C16-3 this held for the direct objects only
+    (now `attach_folder_fresh_direct`), and `finding_path_name_equals_nested_folder` was a counter-example. -/
 theorem attach_folder_fresh (fo : Str) (kids : List Doc) (name : Option Str) (n : Str)
-    (h : objectName fo kids name = some n) (c : Doc) (hc : c ∈ kids)
-    (hf : c.folder = fo ++ sSlash ++ c.folder.drop (fo.length + 1)) : c.folder ≠ fo ++ sSlash ++ n := by
+    (h : objectName fo kids name = some n) (q : Str × Doc) (hq : q ∈ objectsK 0 kids)
+    (hf : q.2.folder = fo ++ sSlash ++ q.2.folder.drop (fo.length + 1)) : q.2.folder ≠ fo ++ sSlash ++ n := by
   intro he
   apply objectName_free fo kids name n h
-  have : c.folder.drop (fo.length + 1) = n := by
+  have : q.2.folder.drop (fo.length + 1) = n := by
     have h2 := he
     rw [hf] at h2
-    have h3 : (fo ++ sSlash) ++ c.folder.drop (fo.length + 1) = (fo ++ sSlash) ++ n := by simpa using h2
+    have h3 : (fo ++ sSlash) ++ q.2.folder.drop (fo.length + 1) = (fo ++ sSlash) ++ n := by simpa using h2
     exact List.append_cancel_left h3
   rw [← this]
-  exact List.mem_map_of_mem hc
+  exact List.mem_map_of_mem hq
+
+/-- the hypothesis `hf` of `attach_folder_fresh` is "the object's folder begins with the holder's folder and a slash" -/
+theorem below_of_prefix (fo g : Str) (h : (fo ++ sSlash) <+: g) : g = fo ++ sSlash ++ g.drop (fo.length + 1) := by
+  obtain ⟨t, rfl⟩ := h
+  simp [sSlash]
+
+/-- `attach_folder_fresh` for a holder whose objects all lie below its folder: the new folder is the folder of none of them -/
+theorem attach_folder_fresh_tree (fo : Str) (kids : List Doc) (name : Option Str) (n : Str)
+    (h : objectName fo kids name = some n) (hbelow : ∀ q ∈ objectsK 0 kids, (fo ++ sSlash) <+: q.2.folder) :
+    fo ++ sSlash ++ n ∉ (objectsK 0 kids).map (fun q => q.2.folder) := by
+  intro hm
+  obtain ⟨q, hq, he⟩ := List.mem_map.mp hm
+  exact attach_folder_fresh fo kids name n h q hq (below_of_prefix fo _ (hbelow q hq)) he
+
+/-- the statement as it was before the repair (direct objects of the holder) -/
+theorem attach_folder_fresh_direct (fo : Str) (kids : List Doc) (name : Option Str) (n : Str)
+    (h : objectName fo kids name = some n) (c : Doc) (hc : c ∈ kids)
+    (hf : c.folder = fo ++ sSlash ++ c.folder.drop (fo.length + 1)) : c.folder ≠ fo ++ sSlash ++ n := by
+  obtain ⟨a, b, rfl⟩ := List.append_of_mem hc
+  refine attach_folder_fresh fo _ name n h (stor 0 c, c) ?_ hf
+  simp only [objectsK_append, objectsK, List.mem_append]
+  right; left; rw [objects_head]; exact List.mem_cons_self
 
 /-- `_setFolder`: every object of the moved document keeps the whole of its folder below the document's old
     folder (`c.folder[len(self.folder):]`), put behind the new folder -/
@@ -83,5 +126,57 @@ theorem path_name_inside_out :
       = some ([(2, [46, 47] ++ nChartsSales), (3, [46, 47] ++ nTablesSales), (1, [46, 47] ++ sObjectSp ++ [49])],
               true, true, false, true) := by
   decide
+
+/-- "Object 1/Object 1" -/
+def nObj1Obj1 : Str := sObjectSp ++ [49] ++ sSlash ++ sObjectSp ++ [49]
+
+/-- two documents of the tree with one `folder` attribute (`save` writes both to that folder) -/
+def sharedFolder (d : Doc) : Bool := decide (¬ ((objectsK 0 d.children).map (fun q => q.2.folder)).Nodup)
+
+/-- **(was finding KF-C16-3, `sig=path-name-equals-folder-of-nested-object`, repaired)**: 1 ← 3 ("./Object 1"), 0 ← 1
+    ("./Object 1": 3 now lives in "Object 1/Object 1/"), then 0 ← 2 under the explicit name "Object 1/Object 1": refused
+    (ValueError, nothing attached — the name is the folder of an object nested in a sibling); the same call under "Object 1/x"
+    is accepted; no folder holds two documents, no member name occurs twice, every reference of the well-ordered tail resolves -/
+theorem path_name_equals_nested_folder_refused :
+    let h0 : Hist := ⟨leaf 0 mtA, [leaf 1 mtB, leaf 2 mtA, leaf 3 mtB], []⟩
+    let ops : List Op := [⟨1, 3, none⟩, ⟨0, 1, none⟩, ⟨0, 2, some nObj1Obj1⟩]
+    (match run h0 ops.dropLast with
+      | some h => (match step h ⟨0, 2, some nObj1Obj1⟩ with | .valueError => true | _ => false)
+      | none => false) = true ∧
+    (run h0 (ops ++ [⟨0, 2, some (sObjectSp ++ [49] ++ sSlash ++ [120])⟩])).map (fun h => (h.refs.map (fun x => (x.1, x.2.2)), sharedFolder h.root,
+        decide (((save h.root).zip.map (·.name)).Nodup)))
+      = some ([(3, [46, 47] ++ sObjectSp ++ [49]), (1, [46, 47] ++ sObjectSp ++ [49]),
+               (2, [46, 47] ++ sObjectSp ++ [49] ++ sSlash ++ [120])], false, true) := by
+  decide
+
+/-- the full-strength statement about attach histories: no two documents below the saved document share a folder -/
+def NoTwoDocumentsInOneFolder : Prop :=
+  ∀ (h0 : Hist) (ops : List Op) (h : Hist), Inv h0 → h0.root.children = [] → (∀ d ∈ h0.pool, d.children = [] ∧ d.folder = []) →
+    run h0 ops = some h → sharedFolder h.root = false
+
+/-- **finding KF-C16-10** (`sig=object-attached-into-folder-of-path-named-object`; what the repair of KF-C16-3 leaves): a
+    holder compares a name with the folders BELOW ITSELF only.  0 ← 1 ("./Object 1"), 0 ← 2 under "Object 1/Object 1"
+    (accepted: 1 holds nothing yet), then 1 ← 3 gets the default name "Object 1" (1 holds nothing, it cannot see 2):
+    2 and 3 both have the folder "/Object 1/Object 1", every parent was attached first, `save` writes member names twice. -/
+theorem finding_later_attach_shares_folder :
+    let h0 : Hist := ⟨leaf 0 mtA, [leaf 1 mtB, leaf 2 mtA, leaf 3 mtB], []⟩
+    let ops : List Op := [⟨0, 1, none⟩, ⟨0, 2, some nObj1Obj1⟩, ⟨1, 3, none⟩]
+    (run h0 ops).map (fun h => (h.refs.map (fun x => (x.1, x.2.2)), parentsFirst h0 ops, sharedFolder h.root,
+        decide (((save h.root).zip.map (·.name)).Nodup)))
+      = some ([(1, [46, 47] ++ sObjectSp ++ [49]), (2, [46, 47] ++ nObj1Obj1), (3, [46, 47] ++ nObj1Obj1)], true, true, false) := by
+  decide
+
+theorem not_noTwoDocumentsInOneFolder : ¬ NoTwoDocumentsInOneFolder := by
+  intro hall
+  have h1 := finding_later_attach_shares_folder
+  simp only at h1
+  cases hr : run ⟨leaf 0 mtA, [leaf 1 mtB, leaf 2 mtA, leaf 3 mtB], []⟩ [⟨0, 1, none⟩, ⟨0, 2, some nObj1Obj1⟩, ⟨1, 3, none⟩] with
+  | none => rw [hr] at h1; cases h1
+  | some hh =>
+    rw [hr] at h1
+    have := hall _ _ hh (inv_fresh 0 mtA false [] none [] _) rfl (by decide) hr
+    simp only [Option.map_some, Option.some.injEq, Prod.mk.injEq] at h1
+    rw [this] at h1
+    exact absurd h1.2.2.1 (by decide)
 
 end OdfModel.Props.C16Names
